@@ -1001,3 +1001,100 @@ Proof.
   - apply peek_firstn. lia.
   - rewrite firstn_length. lia.
 Qed.
+
+(* ---- the same, started from ANY message and with ANY bytes behind the frame --------------------
+   (what the sFlow producer does: the raw header record of a flow sample is dissected into the
+   message that already carries the sample's own fields; the record is padded to 4 bytes) *)
+Definition pre_front_on (b : msg) (f : frame) : msg :=
+  let m := msetI (msetI (msetI b cSrcMac (fSrc f)) cDstMac (fDst f)) cEtype (l3_etype (fOuter f)) in
+  let m := match rev (fVlans f) with v :: _ => msetI m cVlanId v | [] => m end in
+  match fMpls f with
+  | [] => m
+  | ls => mset (mset m cMplsLabel (VLI (map fst ls))) cMplsTtl (VLI (map snd ls))
+  end.
+Definition pre_ref_on (b : msg) (f : frame) : msg :=
+  assign (tail_assign f) (set_l3 (pre_front_on b f) (fOuter f) (outer_next f)).
+
+Lemma front_run_on b f :
+  exists bF, run_layers false b [] (front_chain f) = Some (false, bF, front_layers f) /\ others_eq bF (pre_front_on b f).
+Proof.
+  unfold front_chain. cbn [run_layers eth_layer mk lp lhdr lasg lnext lneeds andb app].
+  replace (lenN (enc_be 6 (fDst f) ++ enc_be 6 (fSrc f) ++ enc_be 2 (head_et (fVlans f) (after_et f)))) with 14 by reflexivity.
+  destruct (after_et_small f) as [_ Hl].
+  assert (E : encap_next false PEthernet (next_etype (head_et (fVlans f) (after_et f))) = false).
+  { destruct (fVlans f); cbn [head_et]; [destruct Hl as [->|[->| ->]]; reflexivity|reflexivity]. }
+  rewrite E. rewrite run_layers_app.
+  set (b0 := assign [(cSrcMac, VI (fSrc f)); (cDstMac, VI (fDst f)); (cEtype, VI (head_et (fVlans f) (after_et f)))] b).
+  destruct (vlan_run (fVlans f) (after_et f) b0 [(PEthernet, 14)] Hl) as (bV & R & O). rewrite R.
+  unfold mpls_chain, front_layers, pre_front_on, after_et in *.
+  destruct (fMpls f) as [|x ls] eqn:Em.
+  - cbn [run_layers]. exists bV. split; [rewrite app_nil_r; reflexivity|].
+    eapply others_eq_trans; [exact O|]. unfold b0. destruct (rev (fVlans f)) as [|w q] eqn:Er.
+    + assert (fVlans f = []) by (destruct (fVlans f); [reflexivity|apply (f_equal (@length N)) in Er; rewrite rev_length in Er; discriminate]).
+      rewrite H. cbn [head_et]. lookups.
+    + lookups.
+  - cbn [run_layers mpls_layer mk lp lhdr lasg lnext lneeds andb]. rewrite mpls_lenN.
+    exists (assign [(cEtype, VI (l3_etype (fOuter f))); (cMplsLabel, VLI (map fst (x :: ls))); (cMplsTtl, VLI (map snd (x :: ls)))] bV).
+    split.
+    + rewrite next_etype_l3. replace (encap_next false PMPLS (l3_parser (fOuter f))) with false by (destruct (fOuter f); reflexivity).
+      rewrite <- app_assoc. reflexivity.
+    + eapply others_eq_trans; [apply others_eq_assign; exact O|]. unfold b0.
+      destruct (rev (fVlans f)) as [|w q] eqn:Er; lookups.
+Qed.
+
+Lemma pre_front_on_srh b f : mgetLB (pre_front_on b f) cRhAddrs = mgetLB b cRhAddrs.
+Proof. unfold pre_front_on. cbv zeta. destruct (rev (fVlans f)); destruct (fMpls f); reflexivity. Qed.
+
+Lemma frame_run_on b f : wf_frame f = true -> mgetLB b cRhAddrs = [] ->
+  exists e' b', run_layers false b [] (frame_chain f) = Some (e', b', frame_layers f) /\ others_eq b' (pre_ref_on b f).
+Proof.
+  unfold wf_frame. intros H Hb. repeat (apply andb_prop in H; destruct H as [H ?]).
+  unfold frame_chain. rewrite run_layers_app.
+  destruct (front_run_on b f) as (bF & R & O). rewrite R. rewrite run_layers_app.
+  rewrite l3_run; [|assumption|right; rewrite (mgetLB_others bF (pre_front_on b f) O), pre_front_on_srh; exact Hb].
+  destruct (tail_run f (assign (l3_assign (fOuter f) (outer_next f)) bF) (front_layers f ++ l3_layers (fOuter f))) as (e' & T); try assumption.
+  rewrite T. exists e'. eexists. split; [rewrite frame_layers_eq, <- app_assoc; reflexivity|].
+  unfold pre_ref_on. rewrite set_l3_assign. apply others_eq_assign. apply others_eq_assign. exact O.
+Qed.
+
+Lemma contracts_rest layers : forall rest rest', contracts layers rest -> peek_etype rest' = peek_etype rest -> contracts layers rest'.
+Proof.
+  intros rest rest' H Hp. pose proof (contracts_firstn layers rest (length layers) rest' H) as G.
+  rewrite firstn_all in G. apply G. rewrite skipn_all. cbn [map concat app]. exact Hp.
+Qed.
+
+(* the message after the frame: the base message with the frame's columns set, its layer stack and sizes *)
+Definition framed (b : msg) (f : frame) : msg :=
+  mset (mset (pre_ref_on b f) cLayerStack (VLI (map (fun x => layer_code (fst x)) (frame_layers f))))
+       cLayerSize (VLI (map snd (frame_layers f))).
+
+Theorem parse_full_capture_on m0 f extra : wf_frame f = true ->
+  mgetLI m0 cLayerStack = [] -> mgetLI m0 cLayerSize = [] -> mgetLB m0 cRhAddrs = [] ->
+  (peek_etype (frame_rest f ++ extra) = peek_etype (frame_rest f)) ->
+  exists m, parse_packet empty_pcfg m0 (encode_frame f ++ extra) = Ok m /\ meq m (framed m0 f).
+Proof.
+  intros Hwf Hst Hsz Hrh Hpk. destruct (frame_run_on m0 f Hwf Hrh) as (e' & b' & Hrun & Hoth).
+  destruct (frame_chained f Hwf) as [Hch Hlast].
+  pose proof (contracts_rest _ _ (frame_rest f ++ extra) (frame_contracts f Hwf) Hpk) as Hct.
+  pose proof (contracts_len _ _ Hct) as Hlen.
+  unfold parse_packet. rewrite encode_frame_chain, <- app_assoc.
+  set (data := concat (map lhdr (frame_chain f)) ++ frame_rest f ++ extra).
+  assert (Hd : (length (frame_chain f) <= length data)%nat) by (unfold data; rewrite app_length; lia).
+  replace (length data + 3)%nat with (length (frame_chain f) + (length data + 3 - length (frame_chain f)))%nat by lia.
+  assert (Hinv0 : Inv m0 m0 []) by (split; [exact Hst|split; [exact Hsz|apply others_eq_refl]]).
+  destruct (chain (frame_chain f) (length data + 3 - length (frame_chain f))%nat data 0 false m0 m0 [] (frame_rest f ++ extra)
+              PEthernet e' b' (frame_layers f)) as (m' & E & (I1 & I2 & I3)); try assumption.
+  - reflexivity.
+  - lia.
+  - exists m'. rewrite E, Hlast.
+    destruct (length data + 3 - length (frame_chain f))%nat as [|fu] eqn:Ef; [lia|]. rewrite parse_loop_none.
+    split; [reflexivity|]. unfold framed.
+    assert (Hne : frame_layers f <> []) by (unfold frame_layers; discriminate).
+    pose proof (others_eq_trans _ _ _ I3 Hoth) as [Ho Hu].
+    split; [|exact Hu]. intros k. rewrite !alookup_mset.
+    destruct (N.eqb_spec cLayerSize k) as [<-|K2].
+    + apply mgetLI_some; [exact I2|]. destruct (frame_layers f); [congruence|discriminate].
+    + destruct (N.eqb_spec cLayerStack k) as [<-|K1].
+      * apply mgetLI_some; [exact I1|]. destruct (frame_layers f); [congruence|discriminate].
+      * apply Ho; congruence.
+Qed.
